@@ -229,12 +229,15 @@ func sameValue(a, b value) bool {
 	case bad:
 		_, ok := b.(bad)
 		return ok
+	case uniqH:
+		y, ok := b.(uniqH)
+		return ok && sameValue(x.v, y.v)
 	}
 	if b == nil {
 		return false
 	}
 	switch b.(type) {
-	case []value, structure, array, tuple, symstr:
+	case []value, structure, array, tuple, symstr, uniqH:
 		return false
 	}
 	return a == b
@@ -300,6 +303,16 @@ func (in *interpreter) iteValue(c *Term, a, b value) (value, bool) {
 		return iface{x.t, v}, true
 	case float64:
 		return nil, false
+	case uniqH:
+		y, ok := b.(uniqH)
+		if !ok {
+			return nil, false
+		}
+		v, ok := in.iteValue(c, x.v, y.v)
+		if !ok {
+			return nil, false
+		}
+		return uniqH{x.t, v}, true
 	}
 	if xb, ok := bytesOfStr(a); ok {
 		yb, ok := bytesOfStr(b)
